@@ -109,6 +109,7 @@ type btreeNode struct {
 }
 
 func (n *btreeNode) markDirty(lsn uint64) {
+	vMarkDirty(n.fileOffset, lsn)
 	n.lastLSN = lsn
 	n.dirty = true
 }
@@ -604,6 +605,7 @@ func (m *memoryStore) incrLSN() {
 }
 
 func newFileStore(path string, autoFlushCache bool) (*fileStore, error) {
+	autoFlushCache = vAutoFlush(autoFlushCache)
 	file, err := os.OpenFile(path, os.O_CREATE|os.O_RDWR, 0644)
 	if err != nil {
 		return nil, err
@@ -613,6 +615,9 @@ func newFileStore(path string, autoFlushCache bool) (*fileStore, error) {
 		cache:          NewLRU(10000),
 		file:           file,
 		mtx:            sync.RWMutex{},
+	}
+	if c := vCacheCap(); c > 0 {
+		fs.cache = NewLRU(c)
 	}
 	if autoFlushCache {
 		fs.tickerDone = make(chan bool)
@@ -697,6 +702,7 @@ func (f *fileStore) update(node *btreeNode) error {
 	if err != nil {
 		return err
 	}
+	vPageWrite(node.getFileOffset())
 	if _, err := f.file.WriteAt(buf.Bytes(), int64(node.getFileOffset())); err != nil {
 		return err
 	}
@@ -727,6 +733,7 @@ func (f *fileStore) fetch(offset uint64) (*btreeNode, error) {
 
 	buf := make([]byte, pageSize)
 
+	vFetchMiss(offset)
 	if _, err := f.file.ReadAt(buf, int64(offset)); err != nil && err != io.EOF {
 		return nil, err
 	}
@@ -767,6 +774,7 @@ func (f *fileStore) save() error {
 	if err := binary.Write(writer, binary.LittleEndian, f._nextLSN); err != nil {
 		return err
 	}
+	vHeaderWrite()
 	if _, err := f.file.WriteAt(writer.Bytes(), 0); err != nil {
 		return err
 	}
@@ -793,6 +801,8 @@ func (f *fileStore) open() error {
 func (f *fileStore) flushPages() error {
 	f.lockExclusive()
 	defer f.unlockExclusive()
+	vFlushBegin()
+	defer vFlushEnd()
 	for _, v := range f.cache.cache {
 		node := v.Value.(*cacheEntry).val
 		if !node.isDirty() {
